@@ -14,11 +14,13 @@
 (*  DE  a dash-escaped valid entry ("- DATA ...")                          *)
 (*  DA  a dash-escaped armor line ("- -----BEGIN PGP SIGNATURE-----")      *)
 (*  JK  junk: non-blank, not an entry, not armor                           *)
+(*  NL  NUL bytes and white space only: blank for gpg (which drops NUL     *)
+(*      with the trailing white space), junk for everybody else (F54)      *)
 (*  DB  dash-escaped blank ("- "): blank inside signed text, junk elsewhere *)
 (***************************************************************************)
 EXTENDS Naturals, Sequences, FiniteSets
 
-Classes   == {"BS", "BG", "EN", "AR", "BL", "HT", "EV", "DE", "DA", "JK", "DB"}
+Classes   == {"BS", "BG", "EN", "AR", "BL", "HT", "EV", "DE", "DA", "JK", "DB", "NL"}
 ArmorLike == {"BS", "BG", "EN", "AR"}
 
 Idx(in)          == 1..Len(in)
@@ -40,7 +42,7 @@ RefOutcomes(in) ==
         b == FirstAt(in, {"BS"}, 1)
     IN IF b = 0
        THEN \* no signed-message header anywhere: plain text
-            IF \E i \in Idx(in) : in[i] \in (ArmorLike \cup {"HT", "JK", "DE", "DA", "DB"})
+            IF \E i \in Idx(in) : in[i] \in (ArmorLike \cup {"HT", "JK", "DE", "DA", "DB", "NL"})
             THEN { Out("syntax", {}, <<0, 0>>) }
             ELSE { Out("plain", Select(in, 1, n, {"EV"}), <<0, 0>>) }
        ELSE
@@ -49,13 +51,13 @@ RefOutcomes(in) ==
            e == IF g = 0 THEN 0 ELSE FirstAt(in, {"EN"}, g + 1)
            truncated == s = 0 \/ g = 0 \/ e = 0
            preArmor  == Select(in, 1, b - 1, ArmorLike) # {}
-           preJunk   == Select(in, 1, b - 1, {"HT", "JK", "DE", "DA", "DB"}) # {}
+           preJunk   == Select(in, 1, b - 1, {"HT", "JK", "DE", "DA", "DB", "NL"}) # {}
            preEntry  == Select(in, 1, b - 1, {"EV"}) # {}
-           hdrArmor  == s # 0 /\ Select(in, b + 1, s - 1, ArmorLike) # {}
-           bodyBad   == g # 0 /\ Select(in, s + 1, g - 1, {"BS", "EN", "AR", "DA", "HT", "JK"}) # {}
+           hdrArmor  == s # 0 /\ Select(in, b + 1, s - 1, ArmorLike \cup {"NL"}) # {}
+           bodyBad   == g # 0 /\ Select(in, s + 1, g - 1, {"BS", "EN", "AR", "DA", "HT", "JK", "NL"}) # {}
            sigArmor  == e # 0 /\ Select(in, g + 1, e - 1, {"BS", "BG", "AR"}) # {}
            postArmor == e # 0 /\ Select(in, e + 1, n, ArmorLike) # {}
-           postData  == e # 0 /\ Select(in, e + 1, n, {"HT", "EV", "DE", "DA", "JK", "DB"}) # {}
+           postData  == e # 0 /\ Select(in, e + 1, n, {"HT", "EV", "DE", "DA", "JK", "DB", "NL"}) # {}
            syntaxApplies == truncated \/ preArmor \/ preJunk \/ hdrArmor \/ bodyBad \/ sigArmor
                             \/ postArmor
            unsignedApplies == preEntry \/ preJunk \/ postData
